@@ -50,3 +50,7 @@ reg('C10', 'propchecks.c10', 'proof', T1[:1], [ASCII, CORR])
 T7 = [('Bashlex.History.results_eq_solo', QC), ('Bashlex.History.result_get', QC), ('Bashlex.Q.run_touched_irrelevant', QC), ('Bashlex.Q.run_touched', QC),
       ('Bashlex.Q.run_frame', QC), ('Bashlex.parseFrom_touched_irrelevant', QC), ('Bashlex.runParser_touched_irrelevant', QC)]
 reg('C18', 'propchecks.c18', 'proof', T7, [ASCII, DEPTH, CORR, 'the only module-level state the model has is the set of sh_syntaxtab keys looked up; that the implementation has no other is observed (snapshots, fresh-interpreter comparison) and, statically, by the C20 write-site obligation'])
+
+T7P = [('Bashlex.Pool.exec_value', QC), ('Bashlex.Pool.exec_pure', QC), ('Bashlex.Pool.exec_all', QC), ('Bashlex.Pool.exec_done', QC), ('Bashlex.Pool.exec_store_prefix', QC),
+       ('Bashlex.Env.answer_eqModStore', QC), ('Bashlex.Q.run_touched_irrelevant', QC)]
+reg('C19', 'propchecks.c19', 'proof', T7P, [ASCII, CORR, 'the theorem is about the abstract interleaving model (atomic queries on one shared store); it cannot exhibit CPython preemption points, the atomicity of defaultdict.__missing__ under the GIL, or free-threaded builds: those are observed under the deterministic scheduler and stress runs'])
